@@ -24,6 +24,7 @@ const (
 	prefixSplitter  = '+'
 	keyPairSplitter = ','
 	keyNameSplitter = '='
+	keyEscape       = '\\'
 	nilString       = ""
 )
 
@@ -47,6 +48,43 @@ func KeyForPrefixedStringMap(
 // the given input byte slice and returns a reference to the byte slice. Callers of this method can
 // use a stack allocated byte slice to remove heap allocation.
 func keyForPrefixedStringMapsAsKey(buf []byte, prefix string, maps ...map[string]string) []byte {
+	return appendKeyForPrefixedStringMaps(buf, false, prefix, maps...)
+}
+
+// registryKeyForPrefixedStringMapsAsKey is keyForPrefixedStringMapsAsKey with
+// the splitter characters escaped inside the prefix, the keys and the values,
+// so that different prefix / tag combinations never yield the same key (e.g.
+// {"a": "1,b=2"} and {"a": "1", "b": "2"}). It is identical to the public
+// format whenever no component contains a splitter or a backslash.
+func registryKeyForPrefixedStringMapsAsKey(buf []byte, prefix string, maps ...map[string]string) []byte {
+	return appendKeyForPrefixedStringMaps(buf, true, prefix, maps...)
+}
+
+func registryKeyForPrefixedStringMaps(prefix string, maps ...map[string]string) string {
+	return string(registryKeyForPrefixedStringMapsAsKey(make([]byte, 0, 256), prefix, maps...))
+}
+
+func appendKeyComponent(buf []byte, s string, escape bool) []byte {
+	if escape {
+		for i := 0; i < len(s); i++ {
+			switch s[i] {
+			case prefixSplitter, keyPairSplitter, keyNameSplitter, keyEscape:
+				// slow path: at least one byte needs escaping
+				for j := 0; j < len(s); j++ {
+					switch s[j] {
+					case prefixSplitter, keyPairSplitter, keyNameSplitter, keyEscape:
+						buf = append(buf, keyEscape)
+					}
+					buf = append(buf, s[j])
+				}
+				return buf
+			}
+		}
+	}
+	return append(buf, s...)
+}
+
+func appendKeyForPrefixedStringMaps(buf []byte, escape bool, prefix string, maps ...map[string]string) []byte {
 	// stack allocated
 	keys := make([]string, 0, 32)
 	for _, m := range maps {
@@ -58,7 +96,7 @@ func keyForPrefixedStringMapsAsKey(buf []byte, prefix string, maps ...map[string
 	insertionSort(keys)
 
 	if prefix != nilString {
-		buf = append(buf, prefix...)
+		buf = appendKeyComponent(buf, prefix, escape)
 		buf = append(buf, prefixSplitter)
 	}
 
@@ -74,14 +112,14 @@ func keyForPrefixedStringMapsAsKey(buf []byte, prefix string, maps ...map[string
 		}
 		lastKey = k
 
-		buf = append(buf, k...)
+		buf = appendKeyComponent(buf, k, escape)
 		buf = append(buf, keyNameSplitter)
 
 		// Find and write the value for this key. Rightmost map takes
 		// precedence.
 		for j := len(maps) - 1; j >= 0; j-- {
 			if v, ok := maps[j][k]; ok {
-				buf = append(buf, v...)
+				buf = appendKeyComponent(buf, v, escape)
 				break
 			}
 		}
